@@ -51,6 +51,7 @@ def curOf? (k : Kind) : Sexp → Option Val
   `fan (<m> <a> <b> <c> <text>)` enable_dynamic_filter_pushdown (m) with its three dependants and
                                  enable_aggregate_dynamic_filter_pushdown; `set` master with `text`
                                  → `ok|err m a b c` as t/f
+  `cats <text>`                  analyze_categories: FromStr then Display → `ok <text>` | `err`
   `nat <n>` / `int <i>`          decimal rendering
 -/
 def handle (op : String) (arg : Sexp) : String :=
@@ -85,6 +86,11 @@ def handle (op : String) (arg : Sexp) : String :=
       let bits := cfg'.map fun e => match e.val with | .b true => "t" | .b false => "f" | _ => "?"
       s!"{if ok then "ok" else "err"} {" ".intercalate bits}"
     | _, _, _, _, _ => "bad-op"
+  | "cats", a => match a.asChars? with
+    | some t => match parseCats t with
+      | some v => s!"ok {charsSexp (showCats v)}"
+      | none => "err"
+    | none => "bad-op"
   | "nat", a => match a.asNat? with
     | some n => charsSexp (showNat n) | none => "bad-op"
   | "int", a => match a.asInt? with
